@@ -23,6 +23,10 @@ RECURSIVE RunThrough(_)
 RunThrough(n) == IF n = 0 THEN <<"wait">> ELSE RunThrough(n - 1) \o <<"continue", "wait">>
 All == {[bps0 |-> b, script |-> q, family |-> "general"] : b \in {"None", "A", "B"}, q \in {q \in Scripts("running", MaxLen) : Useful(q)}}
        \cup {[bps0 |-> b, script |-> RunThrough(n), family |-> "runthrough"] : b \in {"A", "B"}, n \in 1..3}
+       (* `next` on a call whose return address is reached inside the call first (recursion; subroutine right behind the call), *)
+       (* and memory reads at the end of the address space while stopped: always driven on the programs built for them          *)
+       \cup {[bps0 |-> "B", script |-> q, family |-> "nextover"] : q \in {<<"wait", "next">>, <<"wait", "next", "next">>, <<"wait", "next", "stepOut">>}}
+       \cup {[bps0 |-> "A", script |-> <<"wait", "evalmem", "inspect">>, family |-> "evalmem"]}
 VARIABLE x
 Init == x = 0 /\ ndJsonSerialize(IOEnv.OUT, SetToSeq(All)) /\ PrintT(<<"CASES", Cardinality(All)>>)
 Next == UNCHANGED x
